@@ -336,6 +336,24 @@ Proof.
   - apply set_Un_comm; assumption.
 Qed.
 
+(* ---------- fractional versus Cartesian coordinates ---------- *)
+(* the three Cartesian columns holding cartesian(p), in any order, leave the atom at p, as the three fractional
+   columns holding p do; needs fractional(cartesian p) = p as well *)
+Definition fract_cols (p : gvec R) : list pair :=
+  [(Setter (TFract i0) SOne (Dec 0 0), VNum (x0 p)); (Setter (TFract i1) SOne (Dec 0 0), VNum (x1 p)); (Setter (TFract i2) SOne (Dec 0 0), VNum (x2 p))].
+Definition cartn_cols (c : gvec R) : list pair :=
+  [(Setter (TCartn i0) SOne (Dec 0 0), VNum (x0 c)); (Setter (TCartn i1) SOne (Dec 0 0), VNum (x1 c)); (Setter (TCartn i2) SOne (Dec 0 0), VNum (x2 c))].
+
+Theorem fract_vs_cartn p x : fractional E (cartesian E p) = p ->
+  fold_left xyz_step (cartn_cols (cartesian E p)) x = p /\ fold_left xyz_step (fract_cols p) x = p.
+Proof.
+  intros Hfc. split.
+  - unfold cartn_cols. cbn [fold_left]. unfold xyz_step, step_xyz, num_val. cbn [fst snd s_target s_scale].
+    rewrite !cart_frac. rewrite <- Hfc at 4. f_equal.
+  - unfold fract_cols. cbn [fold_left]. unfold xyz_step, step_xyz, num_val. cbn [fst snd s_target s_scale].
+    destruct x, p. reflexivity.
+Qed.
+
 (* ---------- one row ---------- *)
 Definition site_ok (r : list pair) : Prop := distinct_targets r /\ symbols_ok r /\ coords_ok r /\ no_uij r.
 Definition aniso_ok (r : list pair) : Prop := distinct_targets r /\ symbols_ok r /\ coords_ok r /\ only_uij r.
